@@ -439,13 +439,20 @@ _co('velocity', lambda g: (None, _ra_pair(g), {}), 0.3, 20)
 _co('velocity_perihelion', lambda g: (None, [g.f(0, 0.99), g.f(0.3, 100)], {}), 0.3, 20)
 _co('velocity_aphelion', lambda g: (None, [g.f(0, 0.99), g.f(0.3, 100)], {}), 0.3, 20)
 _co('length_orbit', lambda g: (None, [g.f(0, 0.99), g.f(0.3, 100)], {}), 0.3, 30)
+def _omega(g, lo, hi):
+    # the argument of perihelion as orbital elements give it: reduced to (0, 360) or not (Neptune's is about -84 deg)
+    if g.rng.random() < 0.4:
+        return g.ang(lo - 360, hi - 360)
+    return g.ang(lo, hi)
+
+
 _co('passage_nodes_elliptic',
-    lambda g: (None, [g.ang(5, 175), g.f(0, 0.97), g.f(0.3, 40), g.ep(-1900, 3900)] + ([g.b()] if g.rng.random() < 0.5 else []), {}),
+    lambda g: (None, [_omega(g, 5, 175), g.f(0, 0.97), g.f(0.3, 40), g.ep(-1900, 3900)] + ([g.b()] if g.rng.random() < 0.5 else []), {}),
     0.6, 200)
 # omega kept 20 degrees away from 0/180: the node passage of a parabolic orbit recedes as tan^3(v/2) * q^1.5 and
 # an instant before JD 0 is outside what Epoch documents (it fails with UnboundLocalError in get_date)
 _co('passage_nodes_parabolic',
-    lambda g: (None, [g.ang(20, 160), g.f(0.3, 8), g.ep(-1900, 3900)] + ([g.b()] if g.rng.random() < 0.5 else []), {}), 0.6, 200)
+    lambda g: (None, [_omega(g, 20, 160), g.f(0.3, 8), g.ep(-1900, 3900)] + ([g.b()] if g.rng.random() < 0.5 else []), {}), 0.6, 200)
 
 
 def _triangle(g):
@@ -774,6 +781,18 @@ def _copy_set(kind):
     return gen
 
 
+def _self_set(kind):
+    def gen(g):
+        r = g.mutable(kind)
+        if r is None:
+            return None
+        return r, [dict(r)], {}
+    return gen
+
+
+# x.set(x): "another object of the class" is a documented input of set(), and the object itself is one
+for _k, _w, _c in (('Angle', 0.7, 30), ('Epoch', 0.5, 120), ('Interpolation', 0.5, 30), ('CurveFitting', 0.5, 30)):
+    add(_k + '.set#self', 'meth', 'set', 'mutator', _self_set(_k), _w, _c, _k)
 add('Angle.set#copy', 'meth', 'set', 'mutator_capture', _copy_set('Angle'), 0.4, 30, 'Angle')
 add('Epoch.set#copy', 'meth', 'set', 'mutator_capture', _copy_set('Epoch'), 0.4, 120, 'Epoch')
 add('Interpolation.set#copy', 'meth', 'set', 'mutator_capture', _copy_set('Interpolation'), 1.0, 30, 'Interpolation')
